@@ -28,8 +28,10 @@ class ArcContract(object):
 
         def wrapper(endX, endY, i, j, clockwise):
             pos = handlers.state.position
-            x = pos.X_AXIS.nativeToLogical()
-            y = pos.Y_AXIS.nativeToLogical()
+            # the logical start point from the raw fields of the axes (not through the conversion helpers under observation)
+            ax, ay = pos.X_AXIS, pos.Y_AXIS
+            x = (ax.current - ax.offset - ax.homeOffset) / ax.unitMultiplier
+            y = (ay.current - ay.offset - ay.homeOffset) / ay.unitMultiplier
             res = orig(endX, endY, i, j, clockwise)
             me.calls += 1
             me.last_args = (endX, endY, i, j, bool(clockwise))
@@ -180,6 +182,10 @@ class C16(Monitor):
                 if rnd.random() < 0.15 and sweep is not None:
                     # the very same arguments again from a (slightly) different start point: a different circle
                     items.append(dict(t="repeat", dx=rnd.choice([0.5, -1.0, 2.0, 0.0]), dy=rnd.choice([0.25, 1.0, -2.0])))
+            elif t < 0.57:
+                # the arc is the first move after homing (native X / Y exactly 0) while a home offset or a G92 offset is in force
+                items.append(dict(t="fromhome", inch=inch, off=rnd.choice(["M206 X5 Y-3", "G92 X10 Y20", "M206 X-2.5", "G92 Y7", "G92 X0 Y0"]),
+                                  r=rnd.uniform(2, 40), a0=rnd.uniform(0, TWO_PI), sweep=rnd.uniform(0.3, 5.5), cw=rnd.random() < 0.5))
             elif t < 0.6:
                 # two arcs through the real handler with nothing but a unit switch (or nothing at all) in between
                 items.append(dict(t="chain", sx=round(rnd.uniform(-100, 100), 2), sy=round(rnd.uniform(-100, 100), 2),
@@ -252,6 +258,8 @@ class C16(Monitor):
                 self.check_repeat(it, stats, v)
             elif it["t"] == "chain":
                 self.check_chain(it, stats, v)
+            elif it["t"] == "fromhome":
+                self.check_fromhome(it, stats, v)
             elif it["t"] == "centre":
                 self.check_centre_item(it, stats, v, nt)
             elif it["t"] == "cross":
@@ -394,6 +402,36 @@ class C16(Monitor):
             for msg in con.failures[nf:]:
                 v.append(dict(kind="arc-sampling", idx=-1, cmd="chained arc %d: %s (units %s)" % (n + 1, cmd, "inch" if inch else "mm"),
                               detail=msg, mechanism=None))
+
+    def check_fromhome(self, it, stats, v):
+        core = Core([], {})
+        con = ArcContract(core.handlers)
+        core.gcode("G28")
+        if it["inch"]:
+            core.gcode("G20")
+        core.gcode(it["off"])
+        if it["off"].startswith("M206"):
+            core.gcode("G28")          # re-home: the native coordinate is 0 again, the home offset stays
+        pos = core.state.position
+        ax, ay = pos.X_AXIS, pos.Y_AXIS
+        x = (ax.current - ax.offset - ax.homeOffset) / ax.unitMultiplier
+        y = (ay.current - ay.offset - ay.homeOffset) / ay.unitMultiplier
+        r, a0 = it["r"], it["a0"]
+        cx, cy = x - r * math.cos(a0), y - r * math.sin(a0)
+        a1 = a0 - it["sweep"] if it["cw"] else a0 + it["sweep"]
+        ex, ey = cx + r * math.cos(a1), cy + r * math.sin(a1)
+        cmd = "%s X%s Y%s I%s J%s" % ("G2" if it["cw"] else "G3", plain(ex, 7), plain(ey, 7), plain(cx - x, 7), plain(cy - y, 7))
+        nf, nc = len(con.failures), con.calls
+        try:
+            core.gcode(cmd)
+        except Exception as exc:  # noqa: B902
+            v.append(dict(kind="exception", idx=-1, cmd=cmd, detail=repr(exc), mechanism=None))
+            return
+        if con.calls > nc:
+            stats["planarc_contract_evaluations"] += 1
+            stats["planarc_first_move_after_homing_with_offsets"] += 1
+        for msg in con.failures[nf:]:
+            v.append(dict(kind="arc-sampling", idx=-1, cmd="%s ; %s (first move after homing)" % (it["off"], cmd), detail=msg, mechanism=None))
 
     def check_repeat(self, it, stats, v):
         last = getattr(self, "last_plan", None)
